@@ -4,6 +4,7 @@ import (
 	"fmt"
 	"math"
 	"strconv"
+	"strings"
 	"time"
 
 	"github.com/prometheus/client_golang/prometheus"
@@ -17,7 +18,7 @@ import (
 // case := (cfg ops impl)   -- see coq/theories/Run/C04_run.v for the wire format
 //       | (5 floor_bits schema)   -- pickSchema: the switch on floor(log2(log2(factor)))
 // Streams: seq (structured, boundary-directed), limits (small bucket limits, resets, timers),
-// exemplars, malformed (odd configurations and op lists), pickschema, known-subnormal-widen.
+// exemplars, top (upper end of the float range), malformed (odd configurations and op lists), pickschema, known-subnormal-widen.
 
 func main() { cli.Main("C04", runC04) }
 
@@ -483,6 +484,9 @@ func c04Describe(c c04Cfg, ops []c04Op, res c04Result) ([]string, bool) {
 		if w.zt > iz {
 			widened = true
 		}
+		if w.zt == math.MaxFloat64 {
+			tags = append(tags, "zt:widened-to-MaxFloat64")
+		}
 		if w.created > 0 {
 			reset = true
 		}
@@ -529,28 +533,12 @@ func c04Describe(c c04Cfg, ops []c04Op, res c04Result) ([]string, bool) {
 	return tags, manyb || halved || widened || reset
 }
 
-// ordinary streams must not contain the two known inputs on which the real code violates the
-// property: a zero bucket widened onto a subnormal bound (avoided by c04Sanitize) and a zero
-// threshold widened to exactly MaxFloat64 (then +-Inf is counted in the zero bucket)
-func c04Avoid(res c04Result) bool {
-	for _, w := range res.ws {
-		if w.zt == math.MaxFloat64 {
-			return true
-		}
-	}
-	return false
-}
-
 func c04Stream(c *cli.Ctx, r *emit.Rng, name string, n int, gen func(r *emit.Rng) (c04Cfg, []string, []c04Op)) error {
 	w := emit.NewWriter(c.Out, "C04", name)
 	var direct []map[string]interface{}
 	for i := 0; i < n; i++ {
 		cfg, tags, ops := gen(r)
 		res := c04Run(cfg, ops)
-		if !res.failed && c04Avoid(res) {
-			w.Tag("avoided:zt=MaxFloat64", 1)
-			continue
-		}
 		if res.failed {
 			direct = append(direct, map[string]interface{}{"index": w.Len(), "what": res.what})
 		}
@@ -594,6 +582,41 @@ func runC04(c *cli.Ctx) error {
 			cfg.exMax = []int{1, 2, 3, 10, 0}[r.Intn(5)]
 		}
 		return cfg, append(tags, fmt.Sprintf("exmax:%d", cfg.exMax), fmt.Sprintf("exttl:%d", int64(cfg.exTTL))), c04Ops(r, cfg, c04Len(r), 60, 8, 10, 2)
+	}); err != nil {
+		return err
+	}
+	// top: the upper end of the range (MaxFloat64, +-Inf, zero bucket widened up to MaxFloat64 / +Inf)
+	if err := c04Stream(c, r.Fork(), "top", 120*c.Scale, func(r *emit.Rng) (c04Cfg, []string, []c04Op) {
+		cfg, tags := c04Config(r, true)
+		cfg.maxB = uint32(1 + r.Intn(3))
+		cfg.maxZT = []float64{math.Inf(1), math.MaxFloat64, 1e308, emit.Down(math.MaxFloat64)}[r.Intn(4)]
+		if r.Bool() {
+			cfg.minReset = 0
+		}
+		vs := []float64{math.MaxFloat64, math.Inf(1), math.Inf(-1), -math.MaxFloat64, emit.Down(math.MaxFloat64), math.Ldexp(1, 1023),
+			emit.Up(math.Ldexp(1, 1023)), 1e308, 1.5e308, math.Ldexp(1, 1022), 1, 0, math.NaN()}
+		var ops []c04Op
+		for i := 2 + r.Intn(14); i >= 0; i-- {
+			switch r.Intn(8) {
+			case 0:
+				ops = append(ops, c04Op{kind: opWrite})
+			case 1:
+				ops = append(ops, c04Op{kind: opAdvance, d: time.Second})
+			default:
+				v := vs[r.Intn(len(vs))]
+				if r.Chance(1, 4) {
+					v = -v
+				}
+				ops = append(ops, c04Op{kind: opObs, v: v})
+			}
+		}
+		var keep []string
+		for _, t := range tags {
+			if !strings.HasPrefix(t, "max") && !strings.HasPrefix(t, "minreset") {
+				keep = append(keep, t)
+			}
+		}
+		return cfg, append(keep, "top-of-range"), append(ops, c04Op{kind: opWrite})
 	}); err != nil {
 		return err
 	}
